@@ -5,6 +5,7 @@
 //   selector bit 3    : separate MAC password (index bits 4..5), else the import password is used for the MAC
 // psPkcs12ParseMem is called the way matrixSslLoadPkcs12Mem calls it (key zeroed; on failure the caller
 // frees the certificate chain and clears the key).
+#define C09_WORK_BOUND 1500000   /* SHA-1 finalisations per input; see c09_common.h (legit worst case with a sane iteration limit is 3x..6x below) */
 #define C09_HDR 1
 #define C09_PARTS 1
 #include "c09_common.h"
@@ -16,6 +17,7 @@ using namespace vf;
 using namespace c09;
 
 static void prop(Tape &t, Ctx &c) {
+    C09_WORK_RESET();
     uint8_t sel = t.u8();
     const char *ipass = kPasswords[(sel >> 1) & 3];
     const char *mpass = (sel & 8) ? kPasswords[(sel >> 4) & 3] : NULL;
@@ -55,5 +57,5 @@ static void prop(Tape &t, Ctx &c) {
     if (rc >= 0 || deep) c.nontrivial(fmt("p12:%d:%d:%llx", rc, (int) (sel & 63), (unsigned long long) shape));
     if (rc >= 0) c.sample(fmt("pkcs12 api=%s len=%zu ipass=%s mpass=%s rc=%d certs=%d keytype=%d", (sel & 1) ? "matrixSslLoadPkcs12Mem" : "psPkcs12ParseMem", in.n, ipass, mpass ? mpass : "(same)", rc, ncerts, ktype));
 }
-VF_TARGET("C09.pkcs12", prop, 4096, 45)
+VF_TARGET("C09.pkcs12", prop, 4096, 65)
 namespace vf { void vf_global_init(int, char **) { matrixSslOpen(); } }
